@@ -168,9 +168,18 @@ def ref_apply(env, rec, state, op):
     st = St(state, env, rec)
     kind = op["op"]
     names = [G.attr_name(a) for a in rec["attrs"]]
+
+    def mk(x):
+        # ["attr", name]: the object currently stored at another attribute of the receiver; the reference is
+        # value-based, so the two attributes merely start out equal - whatever is then done to one of them
+        # through the API must not show in the other (the API never edits a stored value in place)
+        if isinstance(x, list) and x[:1] == ["attr"]:
+            return copy.deepcopy(dict.__getitem__(st, x[1]))
+        return env.mk(x)
+
     if kind == "set":
         a = attr_by_name(rec, op["attr"])
-        st[op["attr"]] = PREP(env, rec, a, env.mk(op["value"]))
+        st[op["attr"]] = PREP(env, rec, a, mk(op["value"]))
         return st
     if kind == "del":
         a = attr_by_name(rec, op["attr"])
@@ -181,8 +190,8 @@ def ref_apply(env, rec, state, op):
             st[op["attr"]] = PREP(env, rec, a, d)
         return st
     m = op["m"]
-    args = [env.mk(x) for x in op.get("args", [])]
-    kw = {k: env.mk(v) for k, v in op.get("kw", {}).items() if not k.startswith("_")}
+    args = [mk(x) for x in op.get("args", [])]
+    kw = {k: mk(v) for k, v in op.get("kw", {}).items() if not k.startswith("_")}
     if op.get("kw", {}).get("_if") is False:
         return st
     MISSING = env.MISSING
@@ -358,7 +367,7 @@ class Oracle:
                                        {"outcome": out.brief(), "expected_state": {k: repr(c)[:120] for k, c in state_canon(exp).items()}}, ctx.case()))
             return v
         holder = recv if inplace else out.result
-        noop_call = op["op"] == "call" and (op.get("kw", {}).get("_if") is False or "UNCHANGED" in shape)
+        noop_call = op["op"] == "call" and (op.get("kw", {}).get("_if") is False or "UNCHANGED" in shape or shape == "update:one_MISSING")
         # (2) identity
         if op["op"] == "call":
             if inplace and out.value is not recv:
